@@ -472,8 +472,9 @@ theorem pts_prefix_bytes (L : Lex) (fpp : Nat) (ctok : Tok) (pls : List (List To
 
 /-! ## iteration counts: every loop consumes input
 
-  Each reader is a total function whose loops are structural recursions on the input; the number of
-  iterations is bounded by the number of records / lines, hence by the number of bytes. -/
+  Each reader is a total function whose loops are structural recursions on the input.  The counters are
+  threaded through the same recursions (`xI = (x, iterations)`, `Model/Readers.lean`): every statement below
+  first says that the instrumented function returns exactly the reader's result, then bounds the count. -/
 
 theorem reader_steps_linear_splat (bs : List UInt8) : (readRecs bs).steps ≤ bs.length / 32 + 1 := by
   induction bs using readRecs.induct with
@@ -486,63 +487,27 @@ theorem reader_steps_linear_splat (bs : List UInt8) : (readRecs bs).steps ≤ bs
     simp only [List.length_drop] at ih
     omega
 
-theorem reader_steps_linear_arrays (sizes : List Nat) (bs : List UInt8) (h : ∀ n ∈ sizes, 1 ≤ n) :
-    readArraysSteps sizes bs ≤ bs.length + 1 := by
-  induction sizes generalizing bs with
-  | nil => simp [readArraysSteps]
-  | cons n ns ih =>
-    have hn := h n List.mem_cons_self
-    simp only [readArraysSteps]
-    split
-    · have := ih (bs.drop n) (fun m hm => h m (List.mem_cons_of_mem _ hm))
-      simp only [List.length_drop] at this; omega
-    · omega
+/-- the sequence of exact reads (STL header/count/records, PLY binary vertex records, the six SPZ arrays):
+    the instrumented function computes `readArrays`'s result, makes at most one read per requested buffer
+    (SPZ: ≤ 6 whatever the header says, also for degree 0 / zero points) and at most
+    `bytes + 1 + (number of zero-size buffers)` reads (PLY vertex loop with a non-empty record: ≤ bytes + 1) -/
+theorem reader_steps_linear_arrays (sizes : List Nat) (bs : List UInt8) :
+    (readArraysI sizes bs).1 = readArrays sizes bs ∧
+    (readArraysI sizes bs).2 ≤ sizes.length ∧
+    (readArraysI sizes bs).2 ≤ bs.length + 1 + zeroSizes sizes :=
+  ⟨readArraysI_fst sizes bs, readArraysI_steps_le_length sizes bs, readArraysI_steps_le_bytes sizes bs⟩
 
 theorem reader_steps_linear_ascii_verts (L : Lex) (np : Nat) (ls : List Line) (n : Nat) :
-    asciiVertsSteps L np ls n ≤ ls.length + 1 := by
-  induction ls generalizing n with
-  | nil => cases n <;> simp [asciiVertsSteps]
-  | cons l ls ih =>
-    cases n with
-    | zero => simp [asciiVertsSteps]
-    | succ n =>
-      simp only [asciiVertsSteps, List.length_cons]
-      split
-      · have := ih (n + 1); omega
-      · split
-        · omega
-        · split
-          · omega
-          · have := ih n; omega
+    (asciiVertsI L np ls n).1 = asciiVerts L np ls n ∧ (asciiVertsI L np ls n).2 ≤ ls.length + 1 :=
+  ⟨asciiVertsI_fst L np ls n, asciiVertsI_steps L np ls n⟩
 
 theorem reader_steps_linear_ascii_faces (L : Lex) (f : FaceHdr) (ls : List Line) (n : Nat) :
-    asciiFacesSteps L f ls n ≤ ls.length + 1 := by
-  induction ls generalizing n with
-  | nil => cases n <;> simp [asciiFacesSteps]
-  | cons l ls ih =>
-    cases n with
-    | zero => simp [asciiFacesSteps]
-    | succ n =>
-      simp only [asciiFacesSteps, List.length_cons]
-      split
-      · have := ih (n + 1); omega
-      · split
-        · omega
-        · have := ih n; omega
+    (asciiFacesI L f ls n).1 = asciiFaces L f ls n ∧ (asciiFacesI L f ls n).2 ≤ ls.length + 1 :=
+  ⟨asciiFacesI_fst L f ls n, asciiFacesI_steps L f ls n⟩
 
 theorem reader_steps_linear_pts (L : Lex) (ls : List Line) (n : Nat) (o : Option Nat) :
-    ptsLoopSteps L ls n o ≤ ls.length + 1 := by
-  induction ls generalizing n o with
-  | nil => cases n <;> simp [ptsLoopSteps]
-  | cons l ls ih =>
-    cases n with
-    | zero => simp [ptsLoopSteps]
-    | succ n =>
-      have := ih n (some l.toks.length)
-      simp only [ptsLoopSteps, List.length_cons]
-      generalize ptsLoopSteps L ls n (some l.toks.length) = q at *
-      repeat' split
-      all_goals first | omega | exact Nat.succ_le_succ this
+    (ptsLoopI L ls n o).1 = ptsLoop L ls n o ∧ (ptsLoopI L ls n o).2 ≤ ls.length + 1 :=
+  ⟨ptsLoopI_fst L ls n o, ptsLoopI_steps L ls n o⟩
 
 /-- the scanner delivers at most one line per byte (plus a final unterminated one) -/
 theorem scanLines_length (bs : List UInt8) : (scanLines bs).length ≤ bs.length + 1 := by
